@@ -16,6 +16,7 @@ import (
 	"github.com/nspcc-dev/neo-go/pkg/core/native/nativenames"
 	"github.com/nspcc-dev/neo-go/pkg/core/native/noderoles"
 	"github.com/nspcc-dev/neo-go/pkg/core/state"
+	"github.com/nspcc-dev/neo-go/pkg/core/transaction"
 	"github.com/nspcc-dev/neo-go/pkg/crypto/hash"
 	"github.com/nspcc-dev/neo-go/pkg/crypto/keys"
 	"github.com/nspcc-dev/neo-go/pkg/neotest"
@@ -23,6 +24,7 @@ import (
 	"github.com/nspcc-dev/neo-go/pkg/smartcontract"
 	"github.com/nspcc-dev/neo-go/pkg/util"
 	"github.com/nspcc-dev/neo-go/pkg/vm/stackitem"
+	"github.com/nspcc-dev/neo-go/pkg/vm/vmstate"
 	"github.com/nspcc-dev/neo-go/pkg/wallet"
 	"github.com/nspcc-dev/neofs-contract/common"
 	"github.com/stretchr/testify/require"
@@ -287,7 +289,7 @@ type gateChain struct {
 	signers    map[string]neotest.Signer
 	hashes     map[string]util.Uint160
 	comKeys    [][]byte // neo.GetCommittee() as the contracts see it
-	desKeys    [][]byte // roles.GetDesignatedByRole(NeoFSAlphabet, height+1)
+	desEvents  []c16Des // every NeoFSAlphabet designation made on this chain
 	deployWith []neotest.Signer
 }
 
@@ -356,9 +358,7 @@ func newGateChain(t testing.TB, v int64, root string, withAlphabet bool) *gateCh
 		}
 		g.signers["alphabet4of7"] = c16MultiSigner(t, 4, g.alphabet)
 		g.signers["alphabet5of7"] = c16MultiSigner(t, 5, g.alphabet)
-		rm, err := bc.GetNativeContractScriptHash(nativenames.Designation)
-		require.NoError(t, err)
-		g.mustHalt(g.invokeBy([]neotest.Signer{e.Validator, e.Committee}, rm, "designateAsRole", int64(noderoles.NeoFSAlphabet), pubBytes(g.alphabet)), "designate")
+		g.designate(g.alphabet)
 	}
 
 	sender := e.Validator.ScriptHash()
@@ -391,6 +391,34 @@ func newGateChain(t testing.TB, v int64, root string, withAlphabet bool) *gateCh
 		g.comKeys = append(g.comKeys, ItemBytes(x))
 	}
 	return g
+}
+
+// c16Des is one designation of the NeoFSAlphabet role: made by a transaction
+// of block Eff-1, in force for transactions executing in blocks >= Eff.
+type c16Des struct {
+	Eff  int64
+	Keys [][]byte // as getDesignatedByRole returns them
+}
+
+// inForce is the harness's own account of RoleManagement: the list that gates
+// a transaction executing in the given block.
+func (g *gateChain) inForce(block uint32) [][]byte {
+	var out [][]byte
+	best := int64(-1)
+	for _, d := range g.desEvents {
+		if d.Eff <= int64(block) && d.Eff >= best {
+			best, out = d.Eff, d.Keys
+		}
+	}
+	return out
+}
+
+func (g *gateChain) designate(accs []*wallet.Account) {
+	rm, err := g.BC.GetNativeContractScriptHash(nativenames.Designation)
+	require.NoError(g.T, err)
+	res := g.invokeBy([]neotest.Signer{g.E.Validator, g.E.Committee}, rm, "designateAsRole", int64(noderoles.NeoFSAlphabet), pubBytes(accs))
+	g.mustHalt(res, "designate")
+	g.desEvents = append(g.desEvents, c16Des{Eff: int64(res.Height) + 1, Keys: g.designatedNow()})
 }
 
 func (g *gateChain) designatedNow() [][]byte {
@@ -452,6 +480,7 @@ type c16Run struct {
 	distinct   map[string]bool
 	tree       map[string]*neotest.Contract
 	pools      *c16Pools
+	scratch    map[int64]string
 	files      int
 	acases     []string
 	stdaccRows map[string]string
@@ -478,8 +507,12 @@ func keysOf(t testing.TB, raw [][]byte) keys.PublicKeys {
 	return out
 }
 
-func (r *c16Run) envCoq(height uint32, com, des [][]byte, wit [][]byte) string {
-	return fmt.Sprintf("env_basic %d%%Z %s %s %s", height, r.w.keyList(com), r.w.keyList(des), r.w.keyList(wit))
+func (r *c16Run) envCoq(height uint32, com [][]byte, des []c16Des, wit [][]byte) string {
+	var rows []string
+	for _, d := range des {
+		rows = append(rows, fmt.Sprintf("(%d%%Z, %s)", d.Eff, r.w.keyList(d.Keys)))
+	}
+	return fmt.Sprintf("env_basic %d%%Z %s %s %s", height, r.w.keyList(com), ListLit(rows), r.w.keyList(wit))
 }
 
 // gateSweep runs every contract x signer set on one chain whose contracts
@@ -490,7 +523,8 @@ func (r *c16Run) gateSweep(v int64, withAlphabet bool, sets []string) {
 	root := c16Scratch(t, v)
 	g := newGateChain(t, v, root, withAlphabet)
 	sender := g.E.Validator.ScriptHash()
-	des := g.designatedNow()
+	des := g.inForce(g.BC.BlockHeight() + 1) // no designation happens during this sweep
+	require.Equal(t, des, g.designatedNow())
 	// multisig table: every (m, keys) the model may ask for
 	n := len(g.comKeys)
 	for _, m := range []int{n/2 + 1, n*2/3 + 1, n - (n-1)/2} {
@@ -568,7 +602,7 @@ func (r *c16Run) gateSweep(v int64, withAlphabet bool, sets []string) {
 				}
 			}
 			r.w.cases = append(r.w.cases, fmt.Sprintf("mkCase (OUpdate %s %s (%s) %s (%s)) %s %s %s %s",
-				c.Coq, ZI(cur), r.envCoq(res.Height-1, g.comKeys, des, wit), BoolLit(!noNef), data.coq(r.w.pool),
+				c.Coq, ZI(cur), r.envCoq(res.Height-1, g.comKeys, g.desEvents, wit), BoolLit(!noNef), data.coq(r.w.pool),
 				r.w.dump(before), BoolLit(res.Halt), r.w.dump(after), ZI(ver)))
 			r.st.Evaluations++
 			r.st.OpHistogram["update/"+c.Name]++
@@ -686,6 +720,10 @@ func TestC16(t *testing.T) {
 	}
 	// a chain where nobody was designated as NeoFSAlphabet
 	r.gateSweep(prev, false, []string{"stranger", "committee4of6"})
+	// corpus: the designation boundary (block N, N+1, N+2)
+	for _, variant := range []string{"same-block", "next-block", "two-blocks-later"} {
+		r.designationSweep(variant)
+	}
 	r.pools = newC16Pools()
 	r.partB()
 	r.partC()
@@ -2068,4 +2106,200 @@ func (r *c16Run) partC() {
 			r.st.Samples = append(r.st.Samples, ac)
 		}
 	}
+}
+
+// ---------------------------------------------------------------------------
+// Part A': the designation boundary.  neofs.Update and processing.Update are
+// gated by roles.GetDesignatedByRole(NeoFSAlphabet, CurrentIndex()+1), i.e. by
+// the Alphabet in force for the block the transaction executes in (these are
+// the only index-dependent reads on the upgrade path: common.InnerRingNodes
+// and processing.Update; the nine committee-gated contracts read
+// neo.GetCommittee(), which has no index).  Alphabet A is in force, B (which
+// shares three keys with A) is designated by a transaction of block N, and
+// the updates execute in block N (after the designation, same block), N+1 or
+// N+2 under {stranger, committee, majority of the common keys, A majority,
+// B majority}.  Expected: A gates in block N, B from N+1 on.
+
+type desCase struct {
+	Variant  string   `json:"variant"`
+	Contract string   `json:"contract"`
+	Signers  string   `json:"signers"`
+	DesBlock uint32   `json:"designation_of_B_in_block"`
+	Block    uint32   `json:"update_in_block"`
+	InForce  string   `json:"alphabet_in_force"`
+	Halt     bool     `json:"halt"`
+	Fault    string   `json:"fault,omitempty"`
+	History  []string `json:"history"`
+}
+
+func (r *c16Run) scratchAt(v int64) string {
+	if r.scratch == nil {
+		r.scratch = map[int64]string{}
+	}
+	if d, ok := r.scratch[v]; ok {
+		return d
+	}
+	d := c16Scratch(r.t, v)
+	r.scratch[v] = d
+	return d
+}
+
+func (r *c16Run) designationSweep(variant string) {
+	t := r.t
+	r.roll(false)
+	prev := int64(common.PrevVersion)
+	g := newGateChain(t, prev, r.scratchAt(prev), true)
+	rr := Rng(7700 + int64(len(variant)))
+	alphaA := g.alphabet
+	alphaB := append([]*wallet.Account{}, alphaA[:3]...)
+	for i := 0; i < 4; i++ {
+		alphaB = append(alphaB, c16Account(t, rr))
+	}
+	sg := map[string]neotest.Signer{
+		"stranger": g.signers["stranger"], "committee4of6": g.signers["committee4of6"],
+		"A4of7": g.signers["alphabet4of7"], "B4of7": c16MultiSigner(t, 4, alphaB), "AandB2of3": c16MultiSigner(t, 2, alphaA[:3]),
+	}
+	for i := 0; i < 2+rr.Intn(3); i++ {
+		g.E.AddNewBlock(t)
+	}
+	rm, err := g.BC.GetNativeContractScriptHash(nativenames.Designation)
+	require.NoError(t, err)
+	desTx := g.PrepareTx([]neotest.Signer{g.E.Validator, g.E.Committee}, rm, "designateAsRole", int64(noderoles.NeoFSAlphabet), pubBytes(alphaB))
+	keysA := g.inForce(g.BC.BlockHeight() + 1)
+	var desBlock uint32
+	addDes := func(b uint32) {
+		desBlock = b
+		require.True(t, g.ResultOf(desTx, nil).Halt)
+	}
+	type pending struct {
+		c       c16Contract
+		set     string
+		tx      interface{ Hash() util.Uint256 }
+		signers []neotest.Signer
+	}
+	var txs []pending
+	mkUpdates := func() []any {
+		var raw []any
+		for _, c := range c16Contracts {
+			if c.Name != "neofs" && c.Name != "processing" {
+				continue
+			}
+			nw := r.tree[c.Name]
+			if nw == nil {
+				nw = c16Compile(t, g.E.Validator.ScriptHash(), RepoDir, c.Name)
+				r.tree[c.Name] = nw
+			}
+			nb, mb := c16NefManifest(t, nw)
+			// the majority that must pass comes last: only one update of a contract can halt
+			order := []string{"stranger", "committee4of6", "AandB2of3", "A4of7", "B4of7"}
+			if variant == "same-block" {
+				order = []string{"stranger", "committee4of6", "AandB2of3", "B4of7", "A4of7"}
+			}
+			for _, set := range order {
+				ss := []neotest.Signer{g.E.Validator, sg[set]}
+				tx := g.PrepareTx(ss, g.hashes[c.Name], "update", nb, mb, nil)
+				txs = append(txs, pending{c, set, tx, ss})
+				raw = append(raw, tx)
+			}
+		}
+		return raw
+	}
+	before := map[string][]c16KV{}
+	snap := func() {
+		for _, n := range []string{"neofs", "processing"} {
+			before[n] = c16Dump(g.StorageDump(g.hashes[n]))
+		}
+	}
+	var updBlock uint32
+	switch variant {
+	case "same-block":
+		snap()
+		raw := mkUpdates()
+		all := []*transaction.Transaction{desTx}
+		for _, x := range raw {
+			all = append(all, x.(*transaction.Transaction))
+		}
+		b := g.E.AddNewBlock(t, all...)
+		updBlock = b.Index
+		addDes(b.Index)
+	default:
+		b := g.E.AddNewBlock(t, desTx)
+		addDes(b.Index)
+		if variant == "two-blocks-later" {
+			g.E.AddNewBlock(t)
+		}
+		snap()
+		raw := mkUpdates()
+		var all []*transaction.Transaction
+		for _, x := range raw {
+			all = append(all, x.(*transaction.Transaction))
+		}
+		updBlock = g.E.AddNewBlock(t, all...).Index
+	}
+	g.desEvents = append(g.desEvents, c16Des{Eff: int64(desBlock) + 1, Keys: g.designatedNow()})
+	keysB := g.desEvents[len(g.desEvents)-1].Keys
+	require.NotEqual(t, keysA, keysB)
+	n := len(g.comKeys)
+	r.msRow(n/2+1, g.comKeys, c16MultisigAddr(t, n/2+1, keysOf(t, g.comKeys)))
+	r.msRow(4, keysA, c16MultisigAddr(t, 4, keysOf(t, keysA)))
+	r.msRow(4, keysB, c16MultisigAddr(t, 4, keysOf(t, keysB)))
+	require.Equal(t, sg["A4of7"].ScriptHash().BytesBE(), c16MultisigAddr(t, 4, keysOf(t, keysA)))
+	require.Equal(t, sg["B4of7"].ScriptHash().BytesBE(), c16MultisigAddr(t, 4, keysOf(t, keysB)))
+
+	force := g.inForce(updBlock)
+	forceName := "A"
+	if fmt.Sprint(force) == fmt.Sprint(keysB) {
+		forceName = "B"
+	}
+	gateAddr := c16MultisigAddr(t, len(force)/2+1, keysOf(t, force))
+	history := []string{
+		fmt.Sprintf("designateAsRole(NeoFSAlphabet, A) in force from block %d", g.desEvents[0].Eff),
+		fmt.Sprintf("designateAsRole(NeoFSAlphabet, B) by a transaction of block %d (in force from block %d; B shares 3 of 7 keys with A)", desBlock, desBlock+1),
+		fmt.Sprintf("update(nef, manifest, nil) of neofs and processing (deployed at version %d) in block %d under each signer set", prev, updBlock),
+	}
+	cur := map[string]int64{"neofs": prev, "processing": prev}
+	for _, p := range txs {
+		aer := g.E.GetTxExecResult(t, p.tx.Hash())
+		halt := aer.VMState == vmstate.Halt
+		h := g.hashes[p.c.Name]
+		bf := before[p.c.Name]
+		af, ver := bf, cur[p.c.Name]
+		if halt {
+			af = c16Dump(g.StorageDump(h))
+			ver = g.ReadInt(h, "version").Int64()
+		}
+		dc := desCase{Variant: variant, Contract: p.c.Name, Signers: p.set, DesBlock: desBlock, Block: updBlock, InForce: forceName,
+			Halt: halt, Fault: shortFault(aer.FaultException), History: history}
+		hasWit := false
+		var wit [][]byte
+		for _, s := range p.signers {
+			wit = append(wit, s.ScriptHash().BytesBE())
+			hasWit = hasWit || bytes.Equal(s.ScriptHash().BytesBE(), gateAddr)
+		}
+		if halt && !hasWit {
+			r.st.AddViolation("C16_gate: update halted without the witness of the NeoFS Alphabet in force for the executing block (designation boundary)", dc)
+		}
+		if !halt && hasWit {
+			r.st.AddViolation("C16_gate (designation boundary): the majority of the Alphabet in force for the executing block was refused: "+aer.FaultException, dc)
+		}
+		r.w.cases = append(r.w.cases, fmt.Sprintf("mkCase (OUpdate %s %s (%s) true INull) %s %s %s %s",
+			p.c.Coq, ZI(cur[p.c.Name]), r.envCoq(updBlock-1, g.comKeys, g.desEvents, wit),
+			r.w.dump(bf), BoolLit(halt), r.w.dump(af), ZI(ver)))
+		if halt {
+			cur[p.c.Name] = ver
+			before[p.c.Name] = af
+		}
+		r.st.Evaluations++
+		r.st.OpHistogram["update-at-designation-boundary/"+p.c.Name]++
+		oc := "halt"
+		if !halt {
+			oc = "fault:" + dc.Fault
+		}
+		r.st.OutcomeHistogram["designation/"+variant+"/"+p.set+"/"+oc]++
+		r.distinct[fmt.Sprintf("des|%s|%s|%s|%s", variant, p.c.Name, p.set, oc)] = true
+		if variant == "next-block" && p.c.Name == "processing" && (p.set == "A4of7" || p.set == "B4of7") {
+			r.st.Samples = append(r.st.Samples, dc)
+		}
+	}
+	r.st.Histories++
 }
